@@ -1,13 +1,239 @@
-(* Props/C18.v — property C18 (placeholder while the proofs are being written) *)
-From Coq Require Import NArith List Bool.
-From Mpc Require Import Gen.Consts IO.Sha2pcCodec IO.RunC18.
+(* Props/C18.v — property C18: SHA256(XOR) protocol (sha2pc): correct,
+   resumable, canonical encodings.  Only statements closed by [exact], each
+   followed by Print Assumptions.  The model is IO/Sha2pcCodec.v (bytes = list
+   N; outcome Ok / Err / Panic); elliptic-curve arithmetic, garbling and the
+   CO oblivious transfer are opaque functions there. *)
+From Coq Require Import NArith List Bool Arith.
+From Mpc Require Import Gen.Consts Base.Codec IO.Sha2pcCodec IO.Sha2pcProof IO.RunC18.
 Import ListNotations.
+Open Scope N_scope.
 
-Theorem C18_consts :
+(* ---- C18_codec_roundtrip: for every curve and EVERY well-formed message /
+   state (session id below 2^64, the curve's name, integers that fit the
+   curve's field width, the protocol's element counts, labels below 2^128;
+   for Round2 additionally: every point is one that UnmarshalCompressed gives
+   back from its X and the parity of its Y — [decompress] is an arbitrary
+   function): Encode succeeds, Decode of the bytes returns the value, and the
+   byte length is the documented one. *)
+Theorem C18_codec_roundtrip_round1 : forall c m, wf_r1 c m ->
+  exists b, EncodeRound1 c m = Ok b /\ DecodeRound1 c b = Ok m /\ length b = (16 + 2 * byteLen c)%nat.
+Proof. exact r1_roundtrip. Qed.
+Print Assumptions C18_codec_roundtrip_round1.
+
+Theorem C18_codec_roundtrip_round2 : forall decompress c m, wf_r2 decompress c m ->
+  exists b, EncodeRound2 c m = Ok b /\ DecodeRound2 decompress c b = Ok m /\
+            length b = (48 + 256 * byteLen c)%nat.
+Proof. exact r2_roundtrip. Qed.
+Print Assumptions C18_codec_roundtrip_round2.
+
+Theorem C18_codec_roundtrip_round3 : forall m, wf_r3 m ->
+  exists b, EncodeRound3 m = Ok b /\ DecodeRound3 b = Ok m /\ length b = round3PayloadLen.
+Proof. exact r3_roundtrip. Qed.
+Print Assumptions C18_codec_roundtrip_round3.
+
+Theorem C18_codec_roundtrip_garbler_session : forall c s, wf_gs c s ->
+  exists b, EncodeGarblerSession c s = Ok b /\ DecodeGarblerSession c b = Ok s /\
+            length b = (18 + 5 * byteLen c)%nat.
+Proof. exact gs_roundtrip. Qed.
+Print Assumptions C18_codec_roundtrip_garbler_session.
+
+Theorem C18_codec_roundtrip_evaluator_session : forall c s, wf_es c s ->
+  exists b, EncodeEvaluatorSession c s = Ok b /\ DecodeEvaluatorSession c b = Ok s /\ length b = es_len c.
+Proof. exact es_roundtrip. Qed.
+Print Assumptions C18_codec_roundtrip_evaluator_session.
+
+(* the sizes above are the documented ones: byteLen 28/32/48/66, Round3
+   707146 bytes (P-256: 80 / 8240 / 178 / 8306, P-224: 72 / 7216 / 158 / 7274) *)
+Theorem C18_documented_sizes :
   map byteLen all_curves = [28; 32; 48; 66]%nat /\
   N.of_nat round3PayloadLen = 707146%N /\
   map (fun c => N.of_nat (length (curve_name c))) all_curves = [5; 5; 5; 5]%N /\
   N.of_nat evaluatorChoiceSignBytes = ((N.of_nat evaluatorCiphertextCount + 7) / 8)%N /\
   N.of_nat garbledTableByteLen = (N.of_nat garbledTableLabelCount * N.of_nat labelByteLen)%N.
 Proof. exact c18_consts_ok. Qed.
-Print Assumptions C18_consts.
+Print Assumptions C18_documented_sizes.
+
+(* ---- C18_reject.  For EVERY byte string: a wrong magic is an error, for all
+   five decoders. *)
+Theorem C18_reject_magic : forall decompress c data,
+  (firstn 2 data <> magicRound1 -> DecodeRound1 c data = Err) /\
+  (firstn 2 data <> magicRound2 -> DecodeRound2 decompress c data = Err) /\
+  (firstn 2 data <> magicRound3 -> DecodeRound3 data = Err) /\
+  (firstn 2 data <> magicGarblerSession -> DecodeGarblerSession c data = Err) /\
+  (firstn 2 data <> magicEvalSession -> DecodeEvaluatorSession c data = Err).
+Proof.
+  exact (fun d c data => conj (reject_magic_r1 c data) (conj (reject_magic_r2 d c data)
+          (conj (reject_magic_r3 data) (conj (reject_magic_gs c data) (reject_magic_es c data))))).
+Qed.
+Print Assumptions C18_reject_magic.
+
+(* wrong total length is an error: for EVERY byte string given to the Round3
+   decoder; for Round2 when the curve-name chunk is in canonical form.  The
+   full statement (every decoder, every byte string) is false: see
+   C18_reject_length_refuted. *)
+Theorem C18_reject_length_partial :
+  (forall data, length data <> round3PayloadLen -> DecodeRound3 data = Err) /\
+  (forall decompress c sid8 rest, length sid8 = 8%nat ->
+     length rest <> (evaluatorCiphertextCount * byteLen c + evaluatorChoiceSignBytes)%nat ->
+     DecodeRound2 decompress c (magicRound2 ++ sid8 ++ write_chunk (curve_name c) ++ rest) = Err).
+Proof. exact (conj reject_length_r3 reject_length_r2_canonical). Qed.
+Print Assumptions C18_reject_length_partial.
+
+(* REFUTED for the faithful model (and replayed on the implementation by the
+   harness): Round1 and both session decoders accept trailing bytes, Round2
+   accepts a non-minimal uvarint, the evaluator-session decoder accepts a
+   truncated choice-bit field (single bytes.Reader.Read). *)
+Theorem C18_reject_length_refuted :
+  (exists c data m, DecodeRound1 c data = Ok m /\ length data <> (16 + 2 * byteLen c)%nat) /\
+  (exists dec c data m, DecodeRound2 dec c data = Ok m /\ length data <> (48 + 256 * byteLen c)%nat) /\
+  (exists c data s, DecodeGarblerSession c data = Ok s /\ length data <> (18 + 5 * byteLen c)%nat) /\
+  (exists c data s, DecodeEvaluatorSession c data = Ok s /\ (length data < es_len c)%nat).
+Proof. exact reject_length_refuted. Qed.
+Print Assumptions C18_reject_length_refuted.
+
+(* the encoding of EVERY well-formed message/state of one curve is an error
+   for the decoder of any other curve (Round3 carries no curve) *)
+Theorem C18_reject_other_curve : forall c c', c <> c' ->
+  (forall m b, wf_r1 c m -> EncodeRound1 c m = Ok b -> DecodeRound1 c' b = Err) /\
+  (forall dec m b, EncodeRound2 c m = Ok b -> DecodeRound2 dec c' b = Err) /\
+  (forall s b, wf_gs c s -> EncodeGarblerSession c s = Ok b -> DecodeGarblerSession c' b = Err) /\
+  (forall s b, wf_es c s -> EncodeEvaluatorSession c s = Ok b -> DecodeEvaluatorSession c' b = Err).
+Proof.
+  exact (fun c c' H => conj (fun m b => reject_curve_r1 c c' m b H)
+          (conj (fun dec m b => reject_curve_r2 dec c c' m b H)
+          (conj (fun s b => reject_curve_gs c c' s b H) (fun s b => reject_curve_es c c' s b H)))).
+Qed.
+Print Assumptions C18_reject_other_curve.
+
+(* a message or state of another session is an error in the consuming round
+   (the decoders cannot know the expected id), for ALL opaque crypto functions;
+   likewise a Round1 message naming another curve *)
+Theorem C18_reject_other_session :
+  forall RND read_key garble_circ encrypt_co decrypt_co eval_circ,
+  (forall rng st a req, r2_sid req <> gs_sid st ->
+     GarblerRound3 RND read_key garble_circ encrypt_co rng st a req = Err) /\
+  (forall st msg, r3_sid msg <> es_sid st -> EvaluatorRound4 decrypt_co eval_circ st msg = Err).
+Proof.
+  exact (fun RND rk gc ec dc ev => conj (reject_session_round3 RND rk gc ec)
+                                        (reject_session_round4 dc ev)).
+Qed.
+Print Assumptions C18_reject_other_session.
+
+(* never a crash: on EVERY byte string (and every decompression function) no
+   decoder reaches a slice/index out of range — the model's Panic outcome *)
+Theorem C18_no_panic : forall decompress c data,
+  DecodeRound1 c data <> Panic /\ DecodeRound2 decompress c data <> Panic /\
+  DecodeRound3 data <> Panic /\ DecodeGarblerSession c data <> Panic /\
+  DecodeEvaluatorSession c data <> Panic.
+Proof.
+  exact (fun d c data => conj (no_panic_r1 c data) (conj (no_panic_r2 d c data)
+          (conj (no_panic_r3 data) (conj (no_panic_gs c data) (no_panic_es c data))))).
+Qed.
+Print Assumptions C18_no_panic.
+
+(* ---- C18_bits_bytes: bitsToBytesLittle (bytesToBitsLittle bs) = bs for every
+   byte string; and for EVERY bit list (any length, the partial-byte case):
+   (len+7)/8 bytes that expand to the bits followed by < 8 false bits *)
+Theorem C18_bits_bytes : forall bs, Forall (fun b => b < 256) bs ->
+  bitsToBytesLittle (bytesToBitsLittle bs) = bs.
+Proof. exact bits_bytes_roundtrip. Qed.
+Print Assumptions C18_bits_bytes.
+
+Theorem C18_bits_bytes_partial_byte : forall bits,
+  exists pad, (pad < 8)%nat /\
+    bytesToBitsLittle (bitsToBytesLittle bits) = bits ++ repeat false pad /\
+    (length bits + pad = 8 * length (bitsToBytesLittle bits))%nat /\
+    length (bitsToBytesLittle bits) = ((length bits + 7) / 8)%nat.
+Proof. exact bytes_bits_roundtrip_pad. Qed.
+Print Assumptions C18_bits_bytes_partial_byte.
+
+(* ---- C18_resume.  The four rounds as functions (state, incoming message) ->
+   (state, outgoing message) with the cryptographic content opaque: for ALL
+   opaque functions whose outputs fit the fixed-width fields (hypotheses named
+   sender_fits .. encrypt_wf in IO/Sha2pcProof.v, spelled out here), ALL
+   randomness, ALL inputs: sending each message in encoded form and restarting
+   the garbler from its serialised session g1 times after round 1 and g2 times
+   after round 2, the evaluator e2 times after round 2 and e3 times after
+   round 3, gives the same outcome (digest or error) as the uninterrupted
+   run. *)
+Theorem C18_resume :
+  forall RND c gen_sender read_sid build_choices read_key garble_circ encrypt_co decrypt_co eval_circ decompress,
+  (forall rng, let '(a, (ax, ay), (ix, iy)) := gen_sender rng in Forall (fits (byteLen c)) [a; ax; ay; ix; iy]) ->
+  (forall rng, read_sid rng < 2 ^ 64) ->
+  (forall rng ax ay bits scalars points,
+     build_choices rng ax ay bits = Ok (scalars, points) ->
+     length scalars = evaluatorCiphertextCount /\ Forall (fits (byteLen c)) scalars /\
+     length points = evaluatorCiphertextCount /\ Forall (point_ok decompress c) points) ->
+  (forall rng, length (read_key rng) = garblingKeyBytes) ->
+  (forall rng key gin ein outw tables,
+     garble_circ rng key = Ok (gin, ein, outw, tables) ->
+     length gin = hashInputBitCount /\ Forall (fits2 16) gin /\
+     length outw = outputHintCount /\ Forall (fits2 16) outw /\
+     length tables = garbledTableLabelCount /\ Forall (fits 16) tables) ->
+  (forall st pts ein cts,
+     encrypt_co st pts ein = Ok cts -> length cts = evaluatorCiphertextCount /\ Forall (fits2 16) cts) ->
+  forall g1 g2 e2 e3 w1 w2 w3 rg1 re2 rg3 a b,
+    run_protocol RND c gen_sender read_sid build_choices read_key garble_circ encrypt_co decrypt_co
+                 eval_circ decompress g1 g2 e2 e3 w1 w2 w3 rg1 re2 rg3 a b
+    = run_protocol RND c gen_sender read_sid build_choices read_key garble_circ encrypt_co decrypt_co
+                 eval_circ decompress 0 0 0 0 false false false rg1 re2 rg3 a b.
+Proof. exact resume_same. Qed.
+Print Assumptions C18_resume.
+
+(* ---- C18_protocol_correct (PARTIAL: relative to three named hypotheses).
+   Given (garbled_eval_correct) the statement of C01 for the embedded circuit:
+   evaluating the garbled tables on the labels selected by the input bits
+   yields output labels that the hints decode to [circ_eval] of the inputs;
+   (co_ot_correct) the CO OT behaves as the ideal OT: decryption returns
+   exactly the label chosen by each bit (C06); (circuit_computes_sha256xor)
+   the embedded circuit computes SHA-256(a xor b) — NOT proved, checked by the
+   harness against crypto/sha256 — then for all 32-byte a, b, all randomness and
+   all restart points the evaluator's round-4 output is [sha256xor a b]. *)
+Theorem C18_protocol_correct :
+  forall RND c gen_sender read_sid build_choices read_key garble_circ encrypt_co decrypt_co eval_circ decompress,
+  (forall rng, let '(a, (ax, ay), (ix, iy)) := gen_sender rng in Forall (fits (byteLen c)) [a; ax; ay; ix; iy]) ->
+  (forall rng, read_sid rng < 2 ^ 64) ->
+  (forall rng ax ay bits scalars points,
+     build_choices rng ax ay bits = Ok (scalars, points) ->
+     length scalars = evaluatorCiphertextCount /\ Forall (fits (byteLen c)) scalars /\
+     length points = evaluatorCiphertextCount /\ Forall (point_ok decompress c) points) ->
+  (forall rng, length (read_key rng) = garblingKeyBytes) ->
+  (forall rng key gin ein outw tables,
+     garble_circ rng key = Ok (gin, ein, outw, tables) ->
+     length gin = hashInputBitCount /\ Forall (fits2 16) gin /\
+     length outw = outputHintCount /\ Forall (fits2 16) outw /\
+     length tables = garbledTableLabelCount /\ Forall (fits 16) tables) ->
+  (forall st pts ein cts,
+     encrypt_co st pts ein = Ok cts -> length cts = evaluatorCiphertextCount /\ Forall (fits2 16) cts) ->
+  forall circ_eval : list bool -> list bool,
+  (* garbled_eval_correct *)
+  (forall rng key gin ein outw tables xa xb,
+     garble_circ rng key = Ok (gin, ein, outw, tables) ->
+     length xa = hashInputBitCount -> length xb = hashInputBitCount ->
+     exists outl,
+       eval_circ key (map (fun p => pick2 (fst p) (snd p)) (combine gin xa))
+                     (map (fun p => pick2 (fst p) (snd p)) (combine ein xb)) tables = Ok outl /\
+       decode_outputs outw outl = Ok (circ_eval (xa ++ xb))) ->
+  (forall rng key, exists gin ein outw tables, garble_circ rng key = Ok (gin, ein, outw, tables)) ->
+  (* co_ot_correct *)
+  (forall rng1 rng2 sid sid' bits ein,
+     let '(a, (ax, ay), (ix, iy)) := gen_sender rng1 in
+     length bits = hashInputBitCount ->
+     exists scalars points cts,
+       build_choices rng2 ax ay bits = Ok (scalars, points) /\
+       encrypt_co (mkGS sid (curve_name c) a ax ay ix iy) points ein = Ok cts /\
+       decrypt_co (mkES sid' (curve_name c) ax ay scalars bits) cts
+       = Ok (map (fun p => pick2 (fst p) (snd p)) (combine ein bits))) ->
+  (forall x, length (circ_eval x) = outputHintCount) ->
+  forall sha256xor : list N -> list N -> list N,
+  (* circuit_computes_sha256xor *)
+  (forall a b, length a = 32%nat -> length b = 32%nat ->
+     circ_eval (bytesToBitsLittle a ++ bytesToBitsLittle b) = bytesToBitsLittle (sha256xor a b)) ->
+  (forall a b, Forall (fun x => x < 256) (sha256xor a b)) ->
+  forall g1 g2 e2 e3 w1 w2 w3 rg1 re2 rg3 a b,
+    length a = 32%nat -> length b = 32%nat ->
+    run_protocol RND c gen_sender read_sid build_choices read_key garble_circ encrypt_co decrypt_co
+                 eval_circ decompress g1 g2 e2 e3 w1 w2 w3 rg1 re2 rg3 a b
+    = Ok (sha256xor a b).
+Proof. exact protocol_sha256. Qed.
+Print Assumptions C18_protocol_correct.
